@@ -594,9 +594,12 @@ var c02Idioms = []string{
 	"a: {b!: int, >1}\nc: a & 2\n",
 	"a: [>1, ...] & {b!: 1}\n",
 	"a: *{b!: 1} | >1\n",
+	// reported by the builders of C01 and C13 (see notes/C01.md, notes/C13.md)
+	"x: {if false {b: 1}} & >0\n",
+	"x: (1 | 2) & matchN(2, [error(\"e\")])\n",
 }
 
-const c02KnownTail = 5
+const c02KnownTail = 7
 
 // c02Program generates one program.
 func c02Program(r *Rng) (string, map[string]bool) {
